@@ -8,6 +8,7 @@ locator, blob and signer.
 -/
 import TeosVerif.Lemmas.Tower
 import TeosVerif.Lemmas.TowerJust
+import TeosVerif.Lemmas.TowerInv
 
 namespace Teos.C06
 open Teos
@@ -242,5 +243,112 @@ theorem every_held_appointment_was_submitted_by_its_owner (cfg : Cfg) (height : 
   rcases accepted_origin cfg hist start k a.blob hacc with h0 | ⟨pre, node, op, post, e, hm⟩
   · cases h0
   · exact ⟨pre, node, op, post, e, acceptedBy_authenticated _ node op k a.blob hm⟩
+
+
+/-! ### non-interference of whole request histories -/
+
+/-- a request that is not `B`'s: a registration of someone else, a submission whose signature does not recover to
+`B`'s key, or a read -/
+def ByOthers (B : User) : Op → Prop
+  | .register u => u ≠ B
+  | .add sg _ _ _ _ => sg ≠ some B
+  | .get _ _ => True
+  | .sub _ => True
+  | .connect _ _ _ => False
+  | .disconnect _ _ => False
+
+/-- what the tower holds for user `B`: the subscription record (memory and disk), the appointments and trackers -/
+def SameFor (B : User) (s s' : Tower) : Prop :=
+  s'.db.users B = s.db.users B ∧ s'.mem.users B = s.mem.users B ∧
+  (∀ l, s'.db.appts (l, B) = s.db.appts (l, B)) ∧ (∀ l, s'.db.trackers (l, B) = s.db.trackers (l, B))
+
+theorem SameFor.refl (B : User) (s : Tower) : SameFor B s s := ⟨rfl, rfl, fun _ => rfl, fun _ => rfl⟩
+
+theorem SameFor.trans {B : User} {a b c : Tower} (h1 : SameFor B a b) (h2 : SameFor B b c) : SameFor B a c :=
+  ⟨h2.1.trans h1.1, h2.2.1.trans h1.2.1, fun l => (h2.2.2.1 l).trans (h1.2.2.1 l), fun l => (h2.2.2.2 l).trans (h1.2.2.2 l)⟩
+
+theorem register_sameFor (cfg : Cfg) (s : Tower) (u B : User) (h : u ≠ B) : SameFor B s (register cfg s u).1 := by
+  have hb : B ≠ u := fun e => h e.symm
+  have key : SameFor B s (addUpdateUser cfg s u).1 := by
+    unfold addUpdateUser
+    split
+    · split
+      · exact SameFor.refl B s
+      · refine ⟨?_, ?_, fun l => ?_, fun l => ?_⟩
+        · exact Db.updateUser_users_ne _ _ _ _ hb
+        · simp only [hb, ↓reduceIte]
+        · simp
+        · simp
+    · simp only
+      split
+      · exact ⟨by rw [abort_db], by rw [abort_mem], fun _ => by rw [abort_db], fun _ => by rw [abort_db]⟩
+      · rename_i db' hdb
+        unfold Db.storeUser at hdb
+        split at hdb
+        · cases hdb
+        · simp only [Option.some.injEq] at hdb; subst hdb
+          exact ⟨by simp [hb], by simp [hb], fun _ => rfl, fun _ => rfl⟩
+  unfold register
+  generalize addUpdateUser cfg s u = r at key
+  obtain ⟨s', o⟩ := r
+  cases o <;> exact key
+
+theorem step_sameFor (cfg : Cfg) (s : Tower) (node : Node) (op : Op) (B : User) (h : ByOthers B op) :
+    SameFor B s (step cfg s node op).1 := by
+  cases op with
+  | register u =>
+    simp only [step]
+    split
+    · exact SameFor.refl B s
+    · exact register_sameFor cfg s u B h
+  | add sg l b t w =>
+    simp only [step]
+    split
+    · exact SameFor.refl B s
+    · cases ha : authCheck s sg with
+      | error r =>
+        rw [(reject_no_change s node sg r ha l b t w).1]
+        exact SameFor.refl B s
+      | ok p =>
+        obtain ⟨u, ui⟩ := p
+        have hsg := (auth_sound s sg u ui ha).1
+        have hne : B ≠ u := fun e => h (by rw [hsg, e])
+        have f := frame_addAppointment s node sg l b t w u ui ha
+        exact ⟨f.dbUsers B hne, f.memUsers B hne,
+          fun l' => f.appts _ (fun e => hne (Prod.mk.inj e).2),
+          fun l' => f.trackers _ (fun e => hne (Prod.mk.inj e).2)⟩
+  | get sg l => rw [(reads_change_nothing cfg s node sg l).1]; exact SameFor.refl B s
+  | sub sg => rw [(reads_change_nothing cfg s node sg 0).2]; exact SameFor.refl B s
+  | connect _ _ _ => exact h.elim
+  | disconnect _ _ => exact h.elim
+
+/-- **requests_of_others_change_nothing**: any sequence of requests none of which is authenticated as `B` —
+registrations of other users, submissions and replacements by other users (same locators included, accepted,
+triggered, dropped or refused), unauthenticated or expired attempts, reads by anybody — leaves `B`'s subscription
+record, appointments and trackers exactly as they were, in memory and on disk. (Blocks are not requests: a block
+acts on everybody's data by design.) -/
+theorem requests_of_others_change_nothing (cfg : Cfg) (B : User) : ∀ (hist : List (Node × Op)) (s : Tower),
+    (∀ x ∈ hist, ByOthers B x.2) → SameFor B s (runHistory cfg s hist) := by
+  intro hist
+  induction hist with
+  | nil => intro s _; exact SameFor.refl B s
+  | cons x rest ih =>
+    intro s h
+    obtain ⟨node, op⟩ := x
+    simp only [runHistory]
+    exact (step_sameFor cfg s node op B (h (node, op) (by simp))).trans
+      (ih _ (fun y hy => h y (by simp [hy])))
+
+
+/-- non-vacuity: user 8 registers, submits on user 7's locator, replaces it, reads; user 7's data is untouched -/
+example :
+    let cfg : Cfg := { slots := 3, duration := 10, grace := 3 }
+    let node : Node := { send := fun _ => .ok, get := fun _ => .rpc (-5) }
+    let s0 := (addAppointment (register cfg (boot Db.empty 100 []) 7).1 node (some 7) 4 (.enc 64 80 300) 20 5).1
+    let hist : List (Node × Op) := [(node, .register 8), (node, .add (some 8) 4 (.enc 64 81 2100) 21 6),
+      (node, .add (some 8) 4 (.junk 3 100) 21 7), (node, .get (some 8) 4), (node, .add none 4 (.junk 9 10) 1 1)]
+    (∀ x ∈ hist, ByOthers 7 x.2) ∧ (runHistory cfg s0 hist).db.appts (4, 7) = s0.db.appts (4, 7) ∧
+    (s0.db.appts (4, 7)).isSome = true ∧ ((runHistory cfg s0 hist).db.appts (4, 8)).isSome = true := by
+  refine ⟨by intro x hx; simp only [List.mem_cons, List.not_mem_nil, or_false] at hx; rcases hx with rfl | rfl | rfl | rfl | rfl <;> simp [ByOthers], by decide⟩
 
 end Teos.C06
